@@ -30,11 +30,12 @@ static C14: E2<e2_malformed::Malformed> = E2(e2_malformed::Malformed);
 static C18: E2<e2_cksum::Cksum> = E2(e2_cksum::Cksum);
 static C19: E2<ndl::Run> = E2(ndl::Run);
 static C04: E2<e2_udp::UdpBind> = E2(e2_udp::UdpBind);
-static C01_STACK: E2<e2_tcp::TcpStack> = E2(e2_tcp::TcpStack { open_focus: false });
-static C03_STACK: E2<e2_tcp::TcpStack> = E2(e2_tcp::TcpStack { open_focus: true });
+static C01_STACK: E2<e2_tcp::TcpStack> = E2(e2_tcp::TcpStack { open_focus: false, byzantine: false });
+static C03_STACK: E2<e2_tcp::TcpStack> = E2(e2_tcp::TcpStack { open_focus: true, byzantine: false });
+static C17_STACK: E2<e2_tcp::TcpStack> = E2(e2_tcp::TcpStack { open_focus: false, byzantine: true });
 
 pub fn all() -> Vec<&'static dyn Scenario> {
-    vec![&e1::C01, &C01_STACK, &e1::C03, &C03_STACK, &e1::C12, &e1::C17, &e3::C11, &C05, &C04, &C06, &C02, &C13, &C20, &C15, &e2_dhcp::C15_GEN, &C16, &C18, &C14, &dd_decode::C14_DEC, &dd_modcmp::C12_CMP, &C19, &ndl::C19_PARSE]
+    vec![&e1::C01, &C01_STACK, &e1::C03, &C03_STACK, &e1::C12, &e1::C17, &C17_STACK, &e3::C11, &C05, &C04, &C06, &C02, &C13, &C20, &C15, &e2_dhcp::C15_GEN, &C16, &C18, &C14, &dd_decode::C14_DEC, &dd_modcmp::C12_CMP, &C19, &ndl::C19_PARSE]
 }
 
 pub fn get(name: &str) -> Option<&'static dyn Scenario> {
